@@ -38,15 +38,31 @@ def start_private_flight_server() -> Any:
         srv.location = f"grpc://0.0.0.0:{port}"
         srv.flight_server_process = multiprocessing.Process(target=srv.start_flight_server, args=(srv.location,))
         srv.flight_server_process.start()
-        for _ in range(100):
+        # readiness is probed with plain TCP connects: a gRPC client of THIS process that fails to connect keeps reconnecting in
+        # background threads for a while, and a worker forked in that window inherits a broken gRPC state and blocks forever
+        # in its first flight call (the "first MULTIPROCESSING run after the server start hangs" flake of earlier rounds)
+        up = False
+        for _ in range(200):
+            c = socket.socket()
+            c.settimeout(0.2)
+            try:
+                c.connect(("127.0.0.1", port))
+                up = True
+            except OSError as e:
+                last = e
+            finally:
+                c.close()
+            if up or not srv.flight_server_process.is_alive():
+                break
+            time.sleep(0.05)
+        if up:
+            time.sleep(0.2)
             try:
                 FlightServer.list_flight_infos(srv.location)
+                time.sleep(0.3)
                 return srv
-            except Exception as e:  # not up yet
+            except Exception as e:
                 last = e
-                if not srv.flight_server_process.is_alive():
-                    break
-                time.sleep(0.05)
         try:
             srv.end_flight_server_process()
         except Exception:
